@@ -27,6 +27,35 @@ def seeded():
                                                    m.get('status', ''), cell(m.get('check_result', ''), 420)))
     return rows
 
+def tiers():
+    import sys, importlib
+    sys.path.insert(0, V); sys.path.insert(0, V + '/lib')
+    rows = ['| property | quick: obligations (CBMC / symx) | thorough: obligations (CBMC / symx) | last quick run | last thorough run |', '|---|---|---|---|---|']
+    for i in range(1, 21):
+        pid = 'C%02d' % i
+        m = importlib.import_module('props.' + pid)
+        def cnt(tier):
+            L = m.obligations(tier)
+            return '%d (%d / %d)' % (len(L), sum(1 for o in L if o.engine.startswith('E1')), sum(1 for o in L if o.engine.startswith('E2')))
+        runs = {'quick': 'not run', 'thorough': 'not run'}
+        try:
+            e = json.load(open(V + '/evidence/%s.json' % pid)); c = e['coverage']
+            def fmt(ob, dis, inc, kn, wall, part):
+                s = '%s/%s pass' % (dis, ob)
+                if kn: s += ', %d known-finding' % kn
+                if inc: s += ', %d inconclusive' % inc
+                s += ', %.0f s' % (wall or 0)
+                return s + (' (partial run: --only %s)' % part if part else '')
+            runs[e['tier']] = fmt(c.get('obligations'), c.get('discharged'), len(c.get('inconclusive', [])), len({x['obligation'] for x in c.get('known_findings', [])}), e.get('wall_s'), c.get('partial_run_filter'))
+            o = c.get('other_tier_last_run')
+            if o and o.get('tier'):
+                runs[o['tier']] = fmt(o.get('obligations'), o.get('discharged'), len(o.get('inconclusive') or []), 0, o.get('wall_s'), o.get('partial_run_filter'))
+        except Exception:
+            pass
+        rows.append('| %s | %s | %s | %s | %s |' % (pid, cnt('quick'), cnt('thorough'), runs['quick'], runs['thorough']))
+    return rows
+
+
 def splice(text, tag, rows):
     b, e = '<!-- BEGIN %s -->' % tag, '<!-- END %s -->' % tag
     i, j = text.index(b), text.index(e)
@@ -36,5 +65,7 @@ if __name__ == '__main__':
     t = open(V + '/DESIGN.md').read()
     t = splice(t, 'findings-table', findings())
     t = splice(t, 'seeded-table', seeded())
+    if '<!-- BEGIN tiers-table -->' in t:
+        t = splice(t, 'tiers-table', tiers())
     open(V + '/DESIGN.md', 'w').write(t)
     print('tables regenerated')
